@@ -1,0 +1,132 @@
+//! Direct entry points to the outline-memory carving code and plain-data views
+//! of the per-glyph memory metrics, for the out-of-tree verification harness.
+//!
+//! Compiled only with `--cfg googlefonts_fontations_verif`; adds no behaviour.
+use super::{
+    memory::{FreeTypeOutlineMemory, HarfBuzzOutlineMemory},
+    Hinting, Outline,
+};
+
+/// The counts of an [`Outline`] that determine its memory requirements.
+#[derive(Copy, Clone, Debug, Default, PartialEq, Eq)]
+pub struct OutlineCounts {
+    pub points: usize,
+    pub contours: usize,
+    pub max_simple_points: usize,
+    pub max_other_points: usize,
+    pub max_component_delta_stack: usize,
+    pub max_stack: usize,
+    pub cvt_count: usize,
+    pub storage_count: usize,
+    pub max_twilight_points: usize,
+    pub has_hinting: bool,
+    pub has_variations: bool,
+}
+
+impl OutlineCounts {
+    pub(crate) fn from_outline(outline: &Outline) -> Self {
+        Self {
+            points: outline.points,
+            contours: outline.contours,
+            max_simple_points: outline.max_simple_points,
+            max_other_points: outline.max_other_points,
+            max_component_delta_stack: outline.max_component_delta_stack,
+            max_stack: outline.max_stack,
+            cvt_count: outline.cvt_count,
+            storage_count: outline.storage_count,
+            max_twilight_points: outline.max_twilight_points,
+            has_hinting: outline.has_hinting,
+            has_variations: outline.has_variations,
+        }
+    }
+
+    fn to_outline(self) -> Outline<'static> {
+        Outline {
+            points: self.points,
+            contours: self.contours,
+            max_simple_points: self.max_simple_points,
+            max_other_points: self.max_other_points,
+            max_component_delta_stack: self.max_component_delta_stack,
+            max_stack: self.max_stack,
+            cvt_count: self.cvt_count,
+            storage_count: self.storage_count,
+            max_twilight_points: self.max_twilight_points,
+            has_hinting: self.has_hinting,
+            has_variations: self.has_variations,
+            ..Default::default()
+        }
+    }
+}
+
+fn hinting(embedded: bool) -> Hinting {
+    if embedded {
+        Hinting::Embedded
+    } else {
+        Hinting::None
+    }
+}
+
+/// One carved slice: field name, byte offset of its first element from the
+/// start of the buffer, length in elements, size of one element in bytes.
+/// Empty slices report offset 0.
+pub type SliceLayout = (&'static str, usize, usize, usize);
+
+fn layout<T>(name: &'static str, base: usize, slice: &[T]) -> SliceLayout {
+    let offset = if slice.is_empty() {
+        0
+    } else {
+        slice.as_ptr() as usize - base
+    };
+    (name, offset, slice.len(), core::mem::size_of::<T>())
+}
+
+/// `Outline::required_buffer_size` for the given counts.
+pub fn required_buffer_size(counts: OutlineCounts, embedded_hinting: bool) -> usize {
+    counts
+        .to_outline()
+        .required_buffer_size(hinting(embedded_hinting))
+}
+
+/// Runs `FreeTypeOutlineMemory::new` on `buf` and reports where each slice
+/// landed, in declaration order of the struct.
+pub fn freetype_memory_layout(
+    counts: OutlineCounts,
+    buf: &mut [u8],
+    embedded_hinting: bool,
+) -> Option<Vec<SliceLayout>> {
+    let base = buf.as_ptr() as usize;
+    let outline = counts.to_outline();
+    let m = FreeTypeOutlineMemory::new(&outline, buf, hinting(embedded_hinting))?;
+    Some(vec![
+        layout("unscaled", base, m.unscaled),
+        layout("scaled", base, m.scaled),
+        layout("original_scaled", base, m.original_scaled),
+        layout("contours", base, m.contours),
+        layout("flags", base, m.flags),
+        layout("deltas", base, m.deltas),
+        layout("iup_buffer", base, m.iup_buffer),
+        layout("composite_deltas", base, m.composite_deltas),
+        layout("stack", base, m.stack),
+        layout("cvt", base, m.cvt),
+        layout("storage", base, m.storage),
+        layout("twilight_scaled", base, m.twilight_scaled),
+        layout("twilight_original_scaled", base, m.twilight_original_scaled),
+        layout("twilight_flags", base, m.twilight_flags),
+    ])
+}
+
+/// Runs `HarfBuzzOutlineMemory::new` on `buf` and reports where each slice
+/// landed, in declaration order of the struct.
+pub fn harfbuzz_memory_layout(counts: OutlineCounts, buf: &mut [u8]) -> Option<Vec<SliceLayout>> {
+    let base = buf.as_ptr() as usize;
+    let outline = counts.to_outline();
+    let m = HarfBuzzOutlineMemory::new(&outline, buf)?;
+    Some(vec![
+        layout("points", base, m.points),
+        layout("contours", base, m.contours),
+        layout("flags", base, m.flags),
+        layout("deltas", base, m.deltas),
+        layout("iup_buffer", base, m.iup_buffer),
+        layout("composite_deltas", base, m.composite_deltas),
+    ])
+}
